@@ -32,6 +32,7 @@ func init() {
 			{ID: "C09-R6", Title: "callbacks from other goroutines run on a clone made for that call", Floor: 2, Run: freshClonePerCall},
 			{ID: "C09-R7", Title: "registry-cached descriptors and converters are written only while they are built", Floor: 5, Run: cachedObjectsImmutable},
 			{ID: "C09-R8", Title: "VMs are not shared through process-wide containers", Floor: 1, Run: vmNotPooled},
+			{ID: "C09-R9", Title: "shared maps are not written under a read lock", Floor: 1, Run: noWritesUnderReadLock},
 		},
 	})
 }
